@@ -74,10 +74,18 @@ def guarded(fn, limit):
 POINT_LIMIT = 0.25  # CPU seconds for one observer alone (a normal single call costs ~10 ms)
 
 
-def masks_guarded(evaluate, Q, limit, excs):
+def masks_guarded(evaluate, Q, limit, excs, aux=None):
     """finite masks of all observers Q in one call.  If the call hits the watchdog or raises, every observer is
     evaluated alone under a short watchdog so that the offending ones are located: mask -1 = does not return,
-    -2 = raises (class names collected in excs).  Returns (masks, cpu of the whole-box call)."""
+    -2 = raises (class names collected in excs).  Returns (masks, cpu of the whole-box call).
+    aux: optional per-row data (index array) handed to evaluate together with the rows of Q."""
+    if aux is not None:
+        ev0 = evaluate
+        idx = np.arange(len(Q))
+
+        def evaluate(X):  # X carries the row numbers in a 4th column
+            return ev0(X[:, :3], aux[X[:, 3].astype(int)])
+        Q = np.c_[Q, idx]
     try:
         arrs, t = guarded(lambda: evaluate(Q), limit)
         return finite_mask(arrs), t
@@ -210,6 +218,176 @@ def core_call(magpy, entry, src, lam, m):
     return None
 
 
+# ------------------------------------------------------------------------------------------------ functional interface
+# Degenerate-but-accepted geometries: the object constructors reject vanishing sizes, the functional interface
+# (magpylib.getB("Cuboid", observers, dimension=...)) and magpylib.core do not.  Every degenerate body is evaluated in ONE
+# call together with a regular body of its class, rows alternating (row 2i: degenerate body, row 2i+1: regular body, both
+# at observer i), so that per-row special-case masks are exercised; observers = half-lattice box around the DEGENERATE
+# body (its sheet / line / point, rim and extensions), exact and +-1, +-4 ulp per coordinate.
+def fcatalogue():
+    cat = {}
+
+    def add(name, body, partner, valid=True):
+        P = np.array(body.get("v2", [[0, 0, 0]])).reshape(-1, 3)
+        if body["cls"] == "Cuboid":
+            hi = [math.ceil(v / 2) for v in body["dim2"]]
+        elif body["cls"] == "Cylinder":
+            hi = [math.ceil(body["d2"] / 2)] * 2 + [math.ceil(body["h2"] / 2)]
+        elif body["cls"] == "CylinderSegment":
+            hi = [body["r22"]] * 2 + [math.ceil(body["h2"] / 2)]
+        elif body["cls"] in ("Sphere", "Circle"):
+            hi = [math.ceil(body["d2"] / 2)] * 3 if body["cls"] == "Sphere" else [math.ceil(body["d2"] / 2)] * 2 + [0]
+        else:
+            hi = None
+        lo = [-v for v in hi] if hi is not None else P.min(axis=0).tolist()
+        hi = hi if hi is not None else P.max(axis=0).tolist()
+        cat[name] = {"name": name, "body": body, "partner": partner, "lo": [int(v) for v in lo], "hi": [int(v) for v in hi], "valid": valid}
+
+    reg = {"Cuboid": {"cls": "Cuboid", "dim2": [4, 4, 8]}, "Cylinder": {"cls": "Cylinder", "d2": 4, "h2": 4},
+           "CylinderSegment": {"cls": "CylinderSegment", "r12": 2, "r22": 4, "h2": 4, "p1": 0, "p2": 2}, "Sphere": {"cls": "Sphere", "d2": 4},
+           "Circle": {"cls": "Circle", "d2": 4}, "Polyline": {"cls": "Polyline", "v2": [[-2, 0, 0], [2, 0, 0]]},
+           "Triangle": {"cls": "Triangle", "v2": [[0, 0, 0], [4, 0, 0], [0, 4, 0]]},
+           "Tetrahedron": {"cls": "Tetrahedron", "v2": [list(v) for v in ph.T1]}}
+    for d in [(0, 4, 4), (4, 0, 4), (4, 4, 0), (0, 0, 4), (4, 0, 0), (0, 4, 0), (0, 0, 0)]:
+        add("F_Cuboid_%d_%d_%d" % d, {"cls": "Cuboid", "dim2": list(d)}, reg["Cuboid"])
+    for d, h in [(0, 4), (4, 0), (0, 0)]:
+        add(f"F_Cylinder_{d}_{h}", {"cls": "Cylinder", "d2": d, "h2": h}, reg["Cylinder"])
+    for r1, r2, h, p1, p2 in [(4, 4, 4, 0, 2), (2, 4, 0, 0, 2), (2, 4, 4, 1, 1), (0, 0, 4, 0, 2), (4, 4, 0, 2, 2)]:
+        add(f"F_CylinderSegment_{r1}_{r2}_{h}_{p1}_{p2}", {"cls": "CylinderSegment", "r12": r1, "r22": r2, "h2": h, "p1": p1, "p2": p2}, reg["CylinderSegment"])
+    add("F_Sphere_0", {"cls": "Sphere", "d2": 0}, reg["Sphere"])
+    add("F_Circle_0", {"cls": "Circle", "d2": 0}, reg["Circle"])
+    add("F_Polyline_point0", {"cls": "Polyline", "v2": [[0, 0, 0], [0, 0, 0]]}, reg["Polyline"])
+    add("F_Polyline_point2", {"cls": "Polyline", "v2": [[2, 0, 0], [2, 0, 0]]}, reg["Polyline"])
+    # zero area / zero volume: accepted by the functional interface, but no bodies per the documentation (judged under C17)
+    add("F_Triangle_2same", {"cls": "Triangle", "v2": [[0, 0, 0], [0, 0, 0], [4, 0, 0]]}, reg["Triangle"], valid=False)
+    add("F_Triangle_3same", {"cls": "Triangle", "v2": [[0, 0, 0], [0, 0, 0], [0, 0, 0]]}, reg["Triangle"], valid=False)
+    add("F_Triangle_collinear", {"cls": "Triangle", "v2": [[0, 0, 0], [2, 0, 0], [4, 0, 0]]}, reg["Triangle"], valid=False)
+    add("F_Tetrahedron_2same", {"cls": "Tetrahedron", "v2": [[0, 0, 0], [0, 0, 0], [4, 0, 0], [0, 4, 0]]}, reg["Tetrahedron"], valid=False)
+    add("F_Tetrahedron_coplanar", {"cls": "Tetrahedron", "v2": [[0, 0, 0], [4, 0, 0], [0, 4, 0], [4, 4, 0]]}, reg["Tetrahedron"], valid=False)
+    return cat
+
+
+FCAT = fcatalogue()
+
+
+def geometry_row(b, lam):
+    """the geometry argument of one body record in lattice units * lam (tuple of arrays, one per functional argument)"""
+    cls = b["cls"]
+    if cls == "Cuboid":
+        return (np.array(b["dim2"], dtype=float) / 2 * lam,)
+    if cls == "Cylinder":
+        return (np.array([b["d2"], b["h2"]], dtype=float) / 2 * lam,)
+    if cls == "CylinderSegment":
+        return (np.array([b["r12"] / 2 * lam, b["r22"] / 2 * lam, b["h2"] / 2 * lam, 45.0 * b["p1"], 45.0 * b["p2"]]),)
+    if cls in ("Sphere", "Circle"):
+        return (np.array(b["d2"] / 2 * lam),)
+    v = np.array(b["v2"], dtype=float) / 2 * lam
+    if cls == "Polyline":
+        return (v[0], v[1])
+    return (v,)
+
+
+def functional_eval(magpy, cls, rows2, lam, m, iface):
+    """rows2 = [geometry_row(degenerate), geometry_row(regular)]; returns (field names, evaluate(obs, kind) -> list of arrays)
+    where kind[i] in {0, 1} selects the body of row i; None if the class has no such core function"""
+    pol1 = np.array(POL, dtype=float) * m
+    narg = len(rows2[0])
+    stack = [np.array([rows2[0][a], rows2[1][a]]) for a in range(narg)]   # (2, ...) per argument
+
+    def geo(kind):
+        return [st[kind] for st in stack]
+
+    if iface == "functional":
+        exc = {"current": float(m)} if cls in ("Circle", "Polyline") else {"polarization": pol1}
+        names = {"Cuboid": ("dimension",), "Cylinder": ("dimension",), "CylinderSegment": ("dimension",), "Sphere": ("diameter",), "Circle": ("diameter",),
+                 "Polyline": ("segment_start", "segment_end"), "Triangle": ("vertices",), "Tetrahedron": ("vertices",)}[cls]
+
+        def ev(o, kind):
+            kw = dict(zip(names, geo(kind)))
+            return [getattr(magpy, "get" + f)(cls, o, **kw, **exc) for f in "BHJM"]
+        return ["B", "H", "J", "M"], ev
+    core = magpy.core
+
+    def tile(v, n):
+        return np.tile(np.asarray(v, dtype=float), (n, 1))
+    if cls == "Cuboid":
+        return ["B"], lambda o, k: [core.magnet_cuboid_Bfield(observers=o, dimensions=geo(k)[0], polarizations=tile(pol1, len(o)))]
+    if cls == "Sphere":
+        return ["B"], lambda o, k: [core.magnet_sphere_Bfield(observers=o, diameters=geo(k)[0], polarizations=tile(pol1, len(o)))]
+    if cls == "Circle":
+        return ["H"], lambda o, k: [np.asarray(core.current_circle_Hfield(r0=geo(k)[0] / 2, r=np.sqrt(o[:, 0] ** 2 + o[:, 1] ** 2), z=o[:, 2].copy(), i0=np.full(len(o), float(m)))).T]
+    if cls == "Polyline":
+        return ["H"], lambda o, k: [core.current_polyline_Hfield(observers=o, segments_start=geo(k)[0], segments_end=geo(k)[1], currents=np.full(len(o), float(m)))]
+    if cls == "Triangle":
+        return ["B"], lambda o, k: [core.triangle_Bfield(observers=o, vertices=geo(k)[0], polarizations=tile(pol1, len(o)))]
+    if cls == "CylinderSegment":
+        def f(o, k):
+            d = geo(k)[0]
+            oc = np.c_[np.sqrt(o[:, 0] ** 2 + o[:, 1] ** 2), np.arctan2(o[:, 1], o[:, 0]), o[:, 2]]
+            dim = np.c_[d[:, 0], d[:, 1], np.deg2rad(d[:, 3]), np.deg2rad(d[:, 4]), -d[:, 2] / 2, d[:, 2] / 2]
+            mag = tile([m * math.sqrt(14) / magpy.mu_0, math.atan2(2, 1), math.atan2(math.sqrt(5), 3)], len(o))
+            return [core.magnet_cylinder_segment_Hfield(observers=oc, dimensions=dim, magnetizations=mag)]
+        return ["H"], f
+    return None   # Cylinder: the core functions are dimensionless (z0 = h/d): a vanishing diameter cannot be expressed; Tetrahedron: no core function
+
+
+def run_fjob(magpy, job):
+    """one mixed call per variant; returns ([scene of the degenerate rows, scene of the regular rows], #evaluations)"""
+    entry = FCAT[job["body"]]
+    lam = 1.0 if job["scale"] == 100 else 10.0 ** job["scale"]
+    m = 1.0
+    limit = job["limit"]
+    cls = entry["body"]["cls"]
+    ident = np.eye(3, dtype=int).tolist()
+    scs = []
+    for k, (b, valid, degen) in enumerate(((entry["body"], entry["valid"], True), (entry["partner"], True, False))):
+        sid = job["sid"] * 2 + k
+        scs.append({"sid": sid, "name": job["body"] if k == 0 else job["body"] + "+partner", "t0": sid * 10000, "kind": "scan", "body": b, "pose": {"R": ident, "p2": [0, 0, 0]},
+                    "valid": valid, "degen": degen, "exc0": False, "scale": job["scale"], "gen": False, "iface": job["iface"], "fields": [], "vk": [], "outcome": "ok", "exc": "",
+                    "cpu": "fast", "shapes": [], "pts": [], "wd": [], "job": job})
+    fe = functional_eval(magpy, cls, [geometry_row(entry["body"], lam), geometry_row(entry["partner"], lam)], lam, m, job["iface"])
+    if fe is None:
+        return None, 0
+    fields, ev = fe
+    pts = ph.box_points(entry)
+    n = len(pts)
+    P = np.repeat(pts / 2.0 * lam, 2, axis=0)          # observer i twice: rows 2i (degenerate) and 2i+1 (regular)
+    kind = np.tile([0, 1], n)
+    size = lam * max(1.0, max(abs(v) for v in entry["lo"] + entry["hi"]) / 2)
+    excs, masks, cpu, neval = set(), [], 0.0, 0
+    try:
+        for vkind, Q in variants(P, size, job["variants"]):
+            excs.discard("<watchdog>")
+            mk, t = masks_guarded(ev, Q, limit, excs, aux=kind)
+            if "<watchdog>" in excs:
+                for sc in scs:
+                    sc["wd"].append(len(masks) + 1)
+            cpu = max(cpu, t)
+            masks.append(mk)
+            neval += len(Q) * len(fields)
+            for sc in scs:
+                sc["vk"].append(vkind)
+        masks = np.array(masks).T
+        for k, sc in enumerate(scs):
+            sc["fields"] = fields
+            sc["pts"] = [{"t": sc["t0"] + i + 100, "o": [int(v) for v in pts[i]], "f": [int(v) for v in masks[2 * i + k]]} for i in range(n)]
+        if job.get("shapes") and not (masks < 0).any():   # (a call that raises or hangs is already logged per row)
+            shp = np.shape(guarded(lambda: ev(P, kind), limit)[0][0])
+            scs[0]["shapes"].append({"n": 2 * n, "asvector": False, "squeeze": True, "core": True, "shape": [int(v) for v in shp]})
+    except Watchdog:
+        for sc in scs:
+            sc["outcome"], sc["pts"] = "timeout", []
+    except Exception as ex:  # pylint: disable=broad-except
+        for sc in scs:
+            sc["outcome"], sc["exc"], sc["pts"] = "exception", type(ex).__name__, []
+    excs.discard("<watchdog>")
+    for sc in scs:
+        if excs and not sc["exc"]:
+            sc["exc"] = "+".join(sorted(excs))
+        sc["cpu"] = cpu_class(cpu)
+    return scs, neval
+
+
 # ------------------------------------------------------------------------------------------------ scenes
 def kappa_of(job):
     if not job["gen"]:
@@ -228,13 +406,15 @@ def cpu_class(t):
 
 
 def run_job(magpy, job):
+    if job["kind"] == "fscan":
+        return run_fjob(magpy, job)
     entry = CAT[job["body"]]
     kap = kappa_of(job)
     m = 0.0 if job["exc0"] else 1.0
     limit = job["limit"]
     R = ROTS[job["ri"]].tolist()
     p2 = job["p2"]
-    sc = {"sid": job["sid"], "name": job["body"], "t0": job["sid"] * 10000, "kind": job["kind"], "body": entry["body"], "pose": {"R": R, "p2": p2}, "valid": entry["valid"], "exc0": job["exc0"],
+    sc = {"sid": job["sid"], "name": job["body"], "t0": job["sid"] * 10000, "kind": job["kind"], "body": entry["body"], "pose": {"R": R, "p2": p2}, "valid": entry["valid"], "degen": False, "exc0": job["exc0"],
           "scale": job["scale"], "gen": job["gen"], "iface": job["iface"], "fields": ["B", "H", "J", "M"], "vk": [], "outcome": "ok", "exc": "", "cpu": "fast",
           "shapes": [], "pts": [], "wd": [], "job": job}
     neval = 0
@@ -320,13 +500,14 @@ def worker(job):
     sc, ne = run_job(magpy, job)
     if sc is None:
         return None, 0, 0, 0, None, time.process_time() - t0
-    npts = max(1, len(sc["pts"])) if sc["outcome"] != "ok" else len(sc["pts"])
-    return json.dumps(sc, separators=(",", ":")), 1, npts, ne, sc["cpu"], time.process_time() - t0
+    scs = sc if isinstance(sc, list) else [sc]
+    npts = sum(max(1, len(x["pts"])) if x["outcome"] != "ok" else len(x["pts"]) for x in scs)
+    return "\n".join(json.dumps(x, separators=(",", ":")) for x in scs), len(scs), npts, ne, scs[0]["cpu"], time.process_time() - t0
 
 
 def job_cost(j):
-    e = CAT[j["body"]]
-    npts = np.prod([e["hi"][i] - e["lo"][i] + 3 for i in range(3)]) if j["kind"] == "scan" else 180
+    e = (FCAT if j["kind"] == "fscan" else CAT)[j["body"]]
+    npts = np.prod([e["hi"][i] - e["lo"][i] + 3 for i in range(3)]) * (2 if j["kind"] == "fscan" else 1) if j["kind"] != "far" else 180
     nv = {"ulp": 13, "eps": 13, "near": 10, "exact": 1}.get(j.get("variants", "exact"), 1)
     w = {"CylinderSegment": 8, "TriangularMesh": 4, "Tetrahedron": 2, "Circle": 20}.get(e["body"]["cls"], 1)
     return float(npts * nv * w)
@@ -371,4 +552,14 @@ def plan(tier):
         # generic rigid motions: the lattice points are hit up to rounding
         for d in gens:
             new(kind="scan", iface="object", variants="exact", **{**base, "gen": True, "scale": d, "ri": (5 * bi + 1) % 24, "p2": [r.randint(-4, 4) for _ in range(3)]})
+    # functional interface / core: degenerate-but-accepted geometries, each mixed with a regular row in one call
+    for name in FCAT:
+        base = {"body": name, "ri": 0, "p2": [0, 0, 0], "exc0": False, "gen": False}
+        for iface in ("functional", "core"):
+            new(kind="fscan", iface=iface, variants="ulp", shapes=True, scale=100, **base)
+            if not quick:
+                new(kind="fscan", iface=iface, variants="eps", scale=100, **base)
+                new(kind="fscan", iface=iface, variants="near", scale=100, **base)
+                for d in (-6, 6):
+                    new(kind="fscan", iface=iface, variants="ulp", scale=d, **base)
     return jobs
